@@ -30,6 +30,16 @@ func verifOrderBody(n int, orders bool, replicated bool) {
 			c.IsForeground = true
 			deferred[i] = true
 		}
+		if replicated && i == 0 {
+			// p0 has two replicas, stored under p0-0 / p0-1 and addressed by its name
+			for r := 0; r < 2; r++ {
+				rc := c
+				rc.Replicas, rc.ReplicaNum = 2, r
+				rc.ReplicaName = rc.CalculateReplicaName()
+				procs[rc.ReplicaName] = rc
+			}
+			continue
+		}
 		procs[verifNodeNames[i]] = c
 	}
 	p := &Project{Processes: procs}
@@ -42,16 +52,26 @@ func verifOrderBody(n int, orders bool, replicated bool) {
 		}
 		pos[name] = k
 	}
-	for i := 0; i < n; i++ {
-		_, listed := pos[verifNodeNames[i]]
-		verifAssert("listed.iff.not.deferred", listed == !deferred[i])
-		if !listed {
-			continue
+	keysOf := func(i int) []string {
+		if replicated && i == 0 {
+			return []string{"p0-0", "p0-1"}
 		}
-		for j := 0; j < n; j++ {
-			if adj[i][j] {
-				if pj, ok := pos[verifNodeNames[j]]; ok {
-					verifAssert("dependency.first", pj < pos[verifNodeNames[i]])
+		return []string{verifNodeNames[i]}
+	}
+	for i := 0; i < n; i++ {
+		for _, ki := range keysOf(i) {
+			_, listed := pos[ki]
+			verifAssert("listed.iff.not.deferred", listed == !deferred[i])
+			if !listed {
+				continue
+			}
+			for j := 0; j < n; j++ {
+				if adj[i][j] {
+					for _, kj := range keysOf(j) {
+						if pj, ok := pos[kj]; ok {
+							verifAssert("dependency.first", pj < pos[ki])
+						}
+					}
 				}
 			}
 		}
@@ -60,4 +80,7 @@ func verifOrderBody(n int, orders bool, replicated bool) {
 }
 
 func VerifC07_Order3() { verifOrderBody(3, true, false) }
+
+// p0 replicated (2 replicas addressed by the process name)
+func VerifC07_Order3Replicas() { verifOrderBody(3, false, true) }
 func VerifC07_Order4() { verifOrderBody(4, false, false) }
